@@ -329,10 +329,96 @@ class Gen:
             q += ' using %s=%s' % (r.choice(['partition_size', 'a', '%s.partition_size' % r.choice(al)]), r.choice(['10', "'v'"]))
         return q
 
+    def multi_model_join(self):
+        """a table followed by two to four models (plain, occasionally time-series), tables / sub-selects in between or after,
+        and USING options per model: own / global / no partition_size, equal or different sizes, other keys, alias case varied —
+        several partitions in one plan"""
+        r = self.r
+        ops, al, kinds = [], [], []
+        n_models = r.choice([2, 2, 2, 3, 4])
+        seq = ['table'] + ['model'] * n_models
+        for _ in range(r.choice([0, 0, 1, 2])):
+            seq.insert(r.randrange(1, len(seq) + 1), r.choice(['table', 'table', 'sub']))
+        if r.random() < 0.1:
+            seq[0], seq[1] = seq[1], seq[0]
+        for i, kd in enumerate(seq):
+            a = 'j%d' % i
+            if kd == 'table':
+                t = r.choice(TABLES[:5])
+            elif kd == 'model':
+                t = r.choice(PLAIN[:3]) if r.random() < 0.93 else r.choice(TSM)
+            else:
+                t = '(%s)' % self.simple_select(1)
+            ops.append('%s as %s' % (t, a))
+            al.append(a)
+            kinds.append(kd)
+        s = ops[0]
+        for i in range(1, len(ops)):
+            s += ' %s %s' % (r.choice(['join', 'join', 'left join', 'inner join']), ops[i])
+            if r.random() < 0.4:
+                s += ' on %s.%s = %s.%s' % (al[i], r.choice(COLS), r.choice(al[:i]), r.choice(COLS))
+        q = 'select %s from %s' % (r.choice(['*', '*', '%s.*' % al[0], 'count(*)']), s)
+        if r.random() < 0.3:
+            q += ' where %s.%s = %s' % (r.choice(al), r.choice(COLS), self.const())
+        if r.random() < 0.25:
+            q += ' limit %d' % r.choice([1, 5])
+        us = []
+        models = [a for a, kd in zip(al, kinds) if kd == 'model']
+        sizes = [r.choice(['10', '20']) for _ in range(2)]
+        for a in models:
+            k = r.random()
+            if k < 0.6:
+                key = '%s.partition_size' % (a if r.random() < 0.8 else a.upper())
+                us.append('%s=%s' % (key if r.random() < 0.85 else key.replace('partition_size', 'Partition_Size'),
+                                     r.choice(sizes + ['5', "'v'", '0'])))
+            elif k < 0.7:
+                us.append('%s.%s=%s' % (a, r.choice(['a', 'B']), r.choice(['1', "'v'"])))
+        if r.random() < 0.25:
+            us.insert(r.randrange(len(us) + 1), 'partition_size=%s' % r.choice(['10', '3']))
+        if us:
+            q += ' using ' + ', '.join(us)
+        return q
+
+    def multi_cte(self):
+        """two or three CTEs whose bodies need one step or several (cross-integration sub-select, join of two integrations, join
+        with a model, set operation), a later body may use an earlier CTE; the main select uses one or several of them, alone
+        or joined with tables / a model"""
+        r = self.r
+        bodies = ['select * from int1.tab1', 'select id, x from int2.tab3 where x > 1',
+                  'select * from int1.tab1 where x in (select id from int2.tab3)',
+                  'select a.id, b.x from int1.tab1 a join int2.tab3 b on a.id = b.id',
+                  'select * from int1.tab2 a join proj.m1 b',
+                  'select * from int1.tab1 union select * from int2.tab4',
+                  'select * from proj.m1 where x = 1']
+        n = r.choice([2, 2, 3])
+        names = ['cte%d' % (i + 1) for i in range(n)]
+        defs = []
+        for i, nm in enumerate(names):
+            b = r.choice(bodies) if r.random() < 0.8 else self.simple_select(1)
+            if i > 0 and r.random() < 0.25:
+                b = 'select * from %s%s' % (r.choice(names[:i]), r.choice(['', ' where x = 1', ' join int2.tab4 t on t.id = %s.id' % names[0]]))
+            defs.append('%s as (%s)' % (nm, b))
+        used = r.sample(names, r.choice([1, 1, 2, n]))
+        frm = '%s as c0' % used[0] if r.random() < 0.7 else used[0]
+        a0 = 'c0' if ' as c0' in frm else used[0]
+        extra = used[1:] + [r.choice(TABLES[:4] + PLAIN[:2])] * r.choice([0, 1, 1])
+        for j, t in enumerate(extra):
+            frm += ' join %s as c%d on c%d.id = %s.id' % (t, j + 1, j + 1, a0)
+        q = 'with %s select %s from %s' % (', '.join(defs), r.choice(['*', '%s.x' % a0, 'count(*)']), frm)
+        if r.random() < 0.3:
+            q += ' where %s.x %s' % (a0, r.choice(['= 1', 'in (select id from int2.tab4)']))
+        if r.random() < 0.2:
+            q += ' limit 3'
+        return q
+
     def statement(self):
         r = self.r
         self.n = 0
         k = r.random()
+        if k < 0.03:
+            return self.multi_cte()
+        if k < 0.08:
+            return self.multi_model_join()
         if k < 0.14:
             return self.focused_join()
         if k < 0.62:
@@ -569,9 +655,13 @@ def _join_case(rng, top=True):
             us.append('partition_size=%d' % r.choice([1, 100]))
             ps_all = True
         elif k < 0.85:
-            m = r.choice(models)
-            us.append('a%d.partition_size=10' % m)
-            ps_of.add(m)
+            # per-model sizes: one or several models, equal or different sizes (the size itself is not consulted)
+            for m in r.sample(models, r.choice([1, 1, len(models)])):
+                us.append('a%d.partition_size=%d' % (m, r.choice([10, 10, 20, 5])))
+                ps_of.add(m)
+            if r.random() < 0.2:
+                us.insert(r.randrange(len(us) + 1), 'partition_size=%d' % r.choice([10, 7]))
+                ps_all = True
         if r.random() < 0.4:
             us.append('a=1')
         if us:
@@ -789,3 +879,109 @@ def cte_case(rng):
     sql = 'with ' + ', '.join('%s as (%s)' % (d, b) for d, b in zip(defs, bodies)) + \
         ' select * from %s join int2.tab4 b on b.id = %s.id' % (ref, ref)
     return dict(defs=defs, ref=ref, sql=sql, cat='dicts+list+ns', line='(defs %s) %s' % (' '.join(defs), ref))
+
+
+# ------------------------------------------------------------------ per-model USING partition sizes (Model/PlanSizes.lean)
+
+def sizes_case(rng):
+    """one case of the stream `partition_sizes`: a join of a table with two to four plain models, tables / sub-selects in between
+    or after, and USING options that give every model its own size, a global size, or none; returns dict(sql, cat, lines,
+    shape) — `lines` = the `sz` inputs of Driver/Plan.lean for the policies joinOpen (the code as it is) and splitStale"""
+    r = rng
+    catname = r.choice(['names+list', 'dicts+list+ns', 'names+legacy', 'names+legacy-dotted', 'names-with-proj'])
+    seq = ['table'] + ['model'] * r.choice([2, 2, 2, 3, 4])
+    for _ in range(r.choice([0, 0, 1, 1, 2])):
+        seq.insert(r.randrange(2, len(seq) + 1), r.choice(['table', 'table', 'sub']))
+    n = len(seq)
+    ops, leaves = [], []
+    for i, kd in enumerate(seq):
+        a = 'a%d' % i
+        if kd == 'table':
+            ops.append('%s as %s' % (r.choice(['int1.tab1', 'int1.tab2', 'int2.tab3', 'int2.tab4']), a))
+        elif kd == 'model':
+            ops.append('%s as %s' % (r.choice(['proj.m1', 'proj.m2']), a))
+        else:
+            ops.append('(select * from int2.tab3) as %s' % a)
+    models = [i for i, kd in enumerate(seq) if kd == 'model']
+    # USING: the dict is read in text order; a later key overrides an earlier one for the same model
+    pool = r.choice([[10, 20], [10, 20, 30], [10, 10], [5]])
+    entries = []       # (model index or None for the global key, size)
+    mode = r.random()
+    for m in models:
+        if mode < 0.55 or r.random() < 0.6:
+            entries.append((m, r.choice(pool)))
+    if r.random() < 0.25:
+        entries.insert(r.randrange(len(entries) + 1), (None, r.choice([7, 10])))
+    if not entries:
+        entries.append((models[-1], 20))
+    eff = {}
+    for m, sz in entries:
+        for t in (models if m is None else [m]):
+            eff[t] = sz
+    us = []
+    for m, sz in entries:
+        if m is None:
+            us.append('partition_size=%d' % sz)
+        else:
+            al = 'a%d' % m
+            us.append('%s.%s=%d' % (al.upper() if r.random() < 0.15 else al, 'partition_size' if r.random() < 0.9 else 'PARTITION_SIZE', sz))
+    if r.random() < 0.3:
+        us.insert(r.randrange(len(us) + 1), '%sa=1' % r.choice(['', 'a%d.' % r.choice(models)]))
+    tail = r.choice(['', '', ' limit 5', ' where a0.x = 1', ' order by a0.x'])
+    targets = r.choice(['*', '*', 'a0.*'])
+    sql = 'select %s from %s%s using %s' % (targets, ' join '.join(ops), tail, ', '.join(us))
+    for i, kd in enumerate(seq):
+        if kd == 'table':
+            leaves.append('(T 0 (d) (u))')
+        elif kd == 'model':
+            leaves.append('(M 0 %d)' % (1 if i in eff else 0))
+        else:
+            leaves.append('(S 1 (tab 0 (u)))')
+    tree = leaves[0]
+    for i in range(1, n):
+        tree = '(j %s %s)' % (tree, leaves[i])
+    wrap = 1 if (tail or targets != '*') else 0
+    sizes = ' '.join(str(eff.get(i, 0)) for i in range(n))
+    body = '(sizes %s) (jt %s %d (u))' % (sizes, tree, wrap)
+    distinct = len({eff[m] for m in models if m in eff})
+    return dict(sql=sql, cat=catname, lines=['sz j ' + body, 'sz s ' + body],
+                shape='%s/%d-sizes' % (''.join(k[0] for k in seq), distinct))
+
+
+# ------------------------------------------------------------------ sequences on one planner object
+
+def sequence_stream(rng, pool, n):
+    """sequences of two or three statements for ONE QueryPlanner object: the same statement twice, two unrelated statements,
+    and a second statement of another kind that embeds a sub-query TEXT of the first (what a per-text cache would hit);
+    `pool` = (sql, catalog name) pairs of the probe stream; yields (list of sql, catalog name)"""
+    from . import planwalk
+    wrappers = ['select * from int2.tab4 where id in (%s)', 'delete from int1.t9 where a in (%s)',
+                'select * from int1.tab2 where x = (%s) and y in (%s)', 'insert into int1.t9 (select * from int2.tab3 where id in (%s))',
+                'select * from int1.tab1 a join proj.m1 b where a.x in (%s)']
+    pool = [p for p in pool if '|' not in p[1] and not p[1].startswith('#')]
+    withs = [p for p in pool if p[0][:5].lower() == 'with ']
+    for _ in range(n):
+        sql, cat = rng.choice(pool)
+        k = rng.random()
+        if k < 0.2 and withs:
+            # names bound by the first statement (CTEs) used as table names by the second: the main select without its WITH
+            sql, cat = rng.choice(withs)
+            try:
+                q = planwalk.parse(sql)
+                q.cte = None
+                yield [sql, q.to_string()], cat
+            except Exception:
+                yield [sql, sql], cat
+        elif k < 0.3:
+            yield [sql, sql], cat
+        elif k < 0.45:
+            yield [sql, rng.choice(pool)[0]] + ([sql] if rng.random() < 0.3 else []), cat
+        else:
+            subs = planwalk.nested_selects(sql)
+            if not subs:
+                sub = rng.choice(['select id from int2.tab3', 'select max(x) from int2.tab4', 'select id from int1.tab2 where x = 3'])
+                sql = rng.choice(wrappers[:2]) .replace('%s', sub)
+                subs = [sub]
+            sub = rng.choice(subs)
+            w = rng.choice(wrappers)
+            yield [sql, w.replace('%s', sub)], cat
